@@ -1317,8 +1317,17 @@ def banner_dec(h):
     return '%s n=%d' % (hx(msg.compose()), n)
 
 
+def banner_line(h):
+    """the identification string without its line end, as the parsed message writes it, and the consumed length"""
+    from cryptoparser.ssh.subprotocol import SshProtocolMessage
+    msg, n = SshProtocolMessage.parse_immutable(bytes.fromhex('' if h == '-' else h))
+    c = bytes(msg.compose())
+    assert c.endswith(b'\r\n')
+    return '%s n=%d' % (hx(c[:-2]), n)
+
+
 COMMANDS = {
-    'bannerenc': banner_enc, 'bannerdec': banner_dec,
+    'bannerenc': banner_enc, 'bannerdec': banner_dec, 'bannerline': banner_line,
     'nvl': nvl_cmd, 'fvm': fvm_cmd, 'hline': hline_cmd, 'pssl2': pssl2_cmd, 'cssl2': cssl2_cmd, 'pssh': pssh_cmd, 'cssh': cssh_cmd, 'sts': sts_cmd,
     'tpktenc': tpkt_enc, 'cotpenc': cotp_enc, 'pcotp': p_cotp, 'rdpnegenc': rdp_neg_enc, 'mysqlpktenc': mysql_pkt_enc,
     'mysqlssl41': mysql_ssl41, 'mysqlhs': mysql_hs, 'mysqlssl320': mysql_ssl320, 'ovpnctl': ovpn_ctl, 'ovpntcp': ovpn_tcp, 'ovpnack': ovpn_ack, 'ovpnhrc': ovpn_hrc, 'ovpnhrs': ovpn_hrs, 'ovpndec': ovpn_dec, 'pgssl': pg_ssl,
